@@ -17,6 +17,7 @@
 #include <mutex>
 #include <unistd.h>
 #include <fcntl.h>
+#include <signal.h>
 
 namespace vf {
 
@@ -235,6 +236,17 @@ inline void onTerminate()
 	_exit(77);
 }
 
+// per-case wall-clock watchdog: a case that does not finish (e.g. a callback that can no longer re-enter the list because a
+// lock is held across the call) ends the process with a recognisable line instead of hanging the shard until the outer time-out
+inline void onWatchdog(int)
+{
+	Ctx & c = ctx();
+	char buf[160];
+	int n = snprintf(buf, sizeof buf, "WATCHDOG case=%llu seed=%llu did not finish\n", (unsigned long long)c.curCase, (unsigned long long)c.seed);
+	if(n > 0) { ssize_t r = write(2, buf, (size_t)n); (void)r; }
+	_exit(6);
+}
+
 typedef std::function<void(uint64_t caseNo, Rng & rng)> CaseFn;
 
 // args: --seed S --cases N --shard k/n --out F --log F --replay CASE --mode M --opt k=v ...
@@ -256,6 +268,8 @@ inline int runMain(int argc, char ** argv, const CaseFn & fn, const std::functio
 	}
 	if(! c.logPath.empty()) c.logFd = open(c.logPath.c_str(), O_WRONLY | O_CREAT | O_TRUNC, 0644);
 	std::set_terminate(onTerminate);
+	const unsigned watchdogSeconds = (unsigned)c.optInt("watchdog", 240);
+	if(watchdogSeconds) signal(SIGALRM, onWatchdog);
 
 	uint64_t first = (uint64_t)c.shard, step = (uint64_t)c.nshards, last = c.cases;
 	if(c.replayCase >= 0) { first = (uint64_t)c.replayCase; step = 1; last = first + 1; }
@@ -266,6 +280,7 @@ inline int runMain(int argc, char ** argv, const CaseFn & fn, const std::functio
 		c.oplogTruncated = false;
 		c.caseViolBase = c.nviol;
 		logLine("B", n, c.curSeed);
+		if(watchdogSeconds) alarm(watchdogSeconds);
 		Rng rng(c.curSeed);
 		fn(n, rng);
 		++c.casesRun;
@@ -274,6 +289,7 @@ inline int runMain(int argc, char ** argv, const CaseFn & fn, const std::functio
 			for(size_t i = 0; i < c.oplog.size(); ++i) fprintf(stderr, "  %s\n", c.oplog[i].c_str());
 		}
 	}
+	alarm(0);
 	if(finish) finish();
 	writeResult();
 	if(c.logFd >= 0) close(c.logFd);
